@@ -10,7 +10,7 @@ META = dict(
     level_note="Trusted: z3, symx, refs/merkle_ref.py (merkle root and BIP37 partial-tree construction transcribed from Bitcoin Core), refs/wire.py. "
                "Tree shapes (number of leaves) are enumerated up to the bound; match subsets are decided by the solver.",
     stubs=["hashlib.sha256 = uninterpreted function; proof-corruption obligations add Hinv(H(x)) = x for every applied x (collision-freeness on occurring inputs)"],
-    assumptions=["C14.proof.*corrupt*: no SHA-256 collision among the finitely many hash inputs that occur; leaves pairwise distinct (distinct txids)"],
+    assumptions=["C14.proof.*: no SHA-256 collision among the finitely many hash inputs that occur; leaves pairwise distinct (distinct txids)"],
     outside=["more than 9 (quick) / 17 (thorough) leaves for roots, 7 / 12 for proofs; blocks of more than 3 transactions"],
 )
 
@@ -106,7 +106,7 @@ def block_roundtrip(ctx, n_tx, bad_root=False, cls="btc"):
 def merkle_n(ctx, n):
     m = imp("pycoin.merkle")
     H = _H(ctx)
-    leaves = [ctx.sym_bytes("leaf%d" % i, 32) for i in range(n)]
+    leaves = [ctx.sym_bytes("leaf%d" % i, 32, wide=True) for i in range(n)]
     ctx.check(eq(m.merkle(list(leaves)), ref.merkle_root(leaves, H)), "merkle-root-equals-bitcoin-definition")
     ctx.check(all(bool(eq(a, b)) if not ctx.symbolic else True for a, b in zip(leaves, leaves)), "input-list-untouched")
 
@@ -118,8 +118,9 @@ class _Hdr(object):
 def proof(ctx, n, corrupt=None):
     mod = imp("pycoin.message.make_parser_and_packer")
     H = _H(ctx)
-    leaves = [ctx.sym_bytes("leaf%d" % i, 32) for i in range(n)]
-    if corrupt:
+    leaves = [ctx.sym_bytes("leaf%d" % i, 32, wide=True) for i in range(n)]
+    if True:
+        # txids within a block are pairwise distinct (the proof format itself rejects equal siblings, CVE-2012-2459)
         for i in range(n):
             for j in range(i + 1, n):
                 ctx.assume(sym_not(eq(leaves[i], leaves[j])))
@@ -133,12 +134,12 @@ def proof(ctx, n, corrupt=None):
     hashes = list(hashes)
     if corrupt == "hash-altered":
         k = ctx.choose("which_hash", list(range(len(hashes))))
-        alt = ctx.sym_bytes("altered", 32)
+        alt = ctx.sym_bytes("altered", 32, wide=True)
         ctx.assume(sym_not(eq(alt, hashes[k])))
         hashes[k] = alt
         expect_reject = True
     elif corrupt == "hash-added":
-        hashes.append(ctx.sym_bytes("extra", 32))
+        hashes.append(ctx.sym_bytes("extra", 32, wide=True))
         expect_reject = True
     elif corrupt == "hash-removed":
         k = ctx.choose("which_hash", list(range(len(hashes))))
@@ -154,7 +155,7 @@ def proof(ctx, n, corrupt=None):
             flags[k // 8] |= 1 << (k % 8)
         expect_reject = True
     elif corrupt == "root":
-        hdr.merkle_root = ctx.sym_bytes("claimed_root", 32)
+        hdr.merkle_root = ctx.sym_bytes("claimed_root", 32, wide=True)
         ctx.assume(sym_not(eq(hdr.merkle_root, root)))
         expect_reject = True
     d = dict(header=hdr, total_transactions=n, hashes=list(hashes), flags=list(flags))
@@ -186,8 +187,8 @@ def obligations(tier):
         obs.append(Ob("C14.merkle.%dleaves" % n, merkle_n, "%d symbolic 32-byte leaves" % n, dict(n=n), expect=["merkle-root-equals-bitcoin-definition"]))
     for n in (range(1, 8) if not T else range(1, 13)):
         obs.append(Ob("C14.proof.%dleaves.honest" % n, proof, "%d leaves, every subset of matched transactions (solver-decided)" % n, dict(n=n),
-                      expect=["honest-proof-accepted", "matched-txids-in-order"], weight=n, max_paths=20000, deadline_s=900))
-    for n in ((1, 2, 3, 5, 6) if not T else range(1, 9)):
+                      expect=["honest-proof-accepted", "matched-txids-in-order"], weight=n, max_paths=20000, deadline_s=900, collision_free=True))
+    for n in ((1, 2, 3, 5, 6) if not T else range(1, 10)):
         for c in ("hash-altered", "hash-added", "hash-removed", "padding-bit", "root"):
             obs.append(Ob("C14.proof.%dleaves.corrupt-%s" % (n, c), proof, "%d distinct leaves, every match subset, corruption: %s" % (n, c), dict(n=n, corrupt=c),
                           expect=["corrupted-proof-rejected"], weight=n, collision_free=True, max_paths=20000, deadline_s=900))
